@@ -151,7 +151,15 @@ impl<'a> G<'a> {
             self.ows();
             if self.u.coin(1, 3) { // named
                 self.feat("named-arg");
-                let an = self.pick(IDENTS); let an = if an.is_ascii() { an } else { "k" }; self.p(an); self.ows(); self.mark("=", MK::Delim("ASSIGN", false)); self.ows();
+                // the name may itself be produced by macro code: ident, ident&mv, &mv, an argument-less call, ident%call ...
+                match self.u.below(8) {
+                    0 => { self.feat("named-arg-name-mvar"); let an = self.pick(&["a", "k", "opt"]); self.p(an); self.mvar(false); }
+                    1 => { self.feat("named-arg-name-mvar"); self.mvar(false); }
+                    2 => { self.feat("named-arg-name-call"); self.p("%"); let m = self.pick(CALLNAMES); self.p(m); }
+                    3 => { self.feat("named-arg-name-call"); let an = self.pick(&["pre", "k_"]); self.p(an); self.p("%"); let m = self.pick(CALLNAMES); self.p(m); if self.u.coin(1, 3) { self.p("()"); } }
+                    _ => { let an = self.pick(IDENTS); let an = if an.is_ascii() { an } else { "k" }; self.p(an); }
+                }
+                self.ows(); self.mark("=", MK::Delim("ASSIGN", false)); self.ows();
             }
             self.arg_value(true);
         }
